@@ -131,7 +131,6 @@ func checkC02Reader(c *Check) {
 			}
 		}
 		step := 0
-		latest := map[*wstate]int{}
 		bad, paths, maxSteps := "", 0, 0
 		w := &walker{fn: rt, MaxVisits: bound + 3}
 		w.Seed = func(w *walker, st *wstate, v ssa.Value) *absVal {
@@ -140,7 +139,6 @@ func checkC02Reader(c *Check) {
 					if _, callee := calleeOf(call); callee == once {
 						if ex.Index == 0 {
 							step++
-							latest[st] = step
 							return avTag(fmt.Sprintf("step#%d", step))
 						}
 					}
